@@ -1,5 +1,6 @@
 """C06 - 2D rendering equals per-pixel evaluation (structural part)."""
 from .. import raster as R
+from .. import shapecore as SC
 
 
 def run(ctx):
@@ -14,3 +15,5 @@ def run(ctx):
     ctx.guarded(r, R.r_assembly_pixel)
     r = ctx.rule("R4", "pixel (i, j) is sampled at (corner.x + i, corner.y + j, slice z); tile boxes and fills cover the tile", 11)
     ctx.guarded(r, R.r_samples_pixel)
+    r = ctx.rule("R5", "the tile's box goes through the view as an interval: Transformable for Interval is the homogeneous interval transform", 3)
+    ctx.guarded(r, lambda rule: SC.r_transformable(rule, ("Interval",)))
